@@ -1,6 +1,7 @@
 """C10 Equality is an equivalence, agrees with hash, and implies same behaviour (Version, Specifier, SpecifierSet, Marker, Requirement, Tag)."""
 from core import Case
 import gen, gen_spec, gen_misc
+import gen_sets as G
 
 IMPL_MODULE = "eq_impl"
 RULE = ("triples of objects of one type built from inputs that differ only by spelling, trailing zeros, case, clause order, quote style or name normalisation "
@@ -25,24 +26,55 @@ def sp_triple(rng):
         else: out.append(gen_spec.spec_string(rng)[0])
     return out
 
+def clause_variant(rng, c):
+    """another spelling of the same clause (same operator, an equal version spelled differently); None when the clause has no structured version"""
+    s, op, V, wild = c
+    if V is None or op == "===" or (wild and V.local is not None): return s.strip()
+    if wild:
+        return op + gen.spell(rng, gen.V(V.epoch, V.release, None, None, None, None), ws=False) + ".*"
+    W = rng.choice([V, gen.V(V.epoch, V.release + (0,), V.pre, V.post, V.dev, V.local)]) if op != "~=" else V
+    return rng.choice(["", " "]) + op + rng.choice(["", " "]) + gen.spell(rng, W, ws=False)
+
 def set_triple(rng):
     n = rng.choice([0, 1, 2, 3])
-    cls = [gen_spec.spec_string(rng, op=rng.choice(gen_spec.OPS))[0].strip() for _ in range(n)]
-    cls = [c for c in cls if "," not in c]
+    cs = [gen_spec.spec_string(rng, op=rng.choice(gen_spec.OPS)) for _ in range(n)]
+    cs = [c for c in cs if "," not in c[0]]
+    cls = [c[0].strip() for c in cs]
     out = []
     for _ in range(3):
         k = rng.random(); c2 = list(cls)
-        if k < 0.4: rng.shuffle(c2)
-        elif k < 0.6 and c2: c2 = c2 + [rng.choice(c2)]
-        elif k < 0.75 and c2: c2[rng.randrange(len(c2))] = gen_spec.spec_string(rng, op=rng.choice(gen_spec.OPS[:7]))[0].strip()
+        if k < 0.3: rng.shuffle(c2)
+        elif k < 0.45 and c2: c2 = c2 + [rng.choice(c2)]
+        elif k < 0.6 and c2: c2[rng.randrange(len(c2))] = gen_spec.spec_string(rng, op=rng.choice(gen_spec.OPS[:7]))[0].strip()
+        elif k < 0.8 and cs:                                             # the same clauses in other spellings, some twice
+            c2 = [clause_variant(rng, c) for c in cs] + [clause_variant(rng, c) for c in cs if rng.random() < 0.3]
+            rng.shuffle(c2)
+            c2 = [c for c in c2 if "," not in c]
         out.append(rng.choice([",", ", ", " ,"]).join(c2))
-    if cls and rng.random() < 0.5:
-        k = rng.randrange(len(cls) + 1)                                 # the same clauses, combined with &
-        out[rng.randrange(3)] = "AND:" + ",".join(cls[:k]) + "|" + ",".join(cls[k:])
+    if cls and rng.random() < 0.6:
+        # the same clauses through the other construction routes: a & b, a & "text", SpecifierSet([Specifier, ...]),
+        # the operands holding some clauses twice in different spellings
+        k = rng.randrange(len(cls) + 1)
+        left = cls[:k] + [clause_variant(rng, c) for c in cs[k:] if rng.random() < 0.3]
+        right = [clause_variant(rng, c) if rng.random() < 0.5 else c[0].strip() for c in cs[k:]] + [clause_variant(rng, c) for c in cs[:k] if rng.random() < 0.3]
+        left, right = [c for c in left if "," not in c], [c for c in right if "," not in c]
+        route = rng.choice(["AND:", "AND:", "ANDS:", "OBJ:"])
+        if route == "OBJ:": out[rng.randrange(3)] = "OBJ:" + "|".join(left + right)
+        else: out[rng.randrange(3)] = route + ",".join(left) + "|" + ",".join(right)
     return out
 
 ESCAPED = ['"a\\x22b\'c"', '"a\\\\x22b\'c"', "'a\\x27b\"c'", '"a\\\\b"', '"a\\x5cb"', '"a\\x62"', '"ab"', "'a\"b'", '"a\\x22b"']
+def fused_pair(rng):
+    """D36 class: a literal holding BOTH quote characters (spelled with \\x22 escapes) whose text imitates marker syntax"""
+    var = rng.choice(["os_name", "sys_platform", "platform_system"])
+    p_, q = rng.choice(["posix", "nt", "linux", "Linux", "win32"]), rng.choice(["b", "x", ""])
+    op = rng.choice(["or", "or", "and"])
+    B = '%s == "%s" %s \'x"y\' == "%s"' % (var, p_, op, q)
+    A = '%s == "%s\\x22 %s \'x\\x22y\' == \\x22%s"' % (var, p_, op, q)
+    return [A, B, rng.choice([A, B, "REQ:" + B])]
+
 def marker_triple(rng):
+    if rng.random() < 0.04: return fused_pair(rng)
     if rng.random() < 0.1:
         # literals spelled with Python escapes (outside PEP 508, but accepted): equal markers must still evaluate alike
         var = rng.choice(["platform_version", "os_name", "platform_release"])
@@ -61,6 +93,10 @@ def req_triple(rng):
         elif k < 0.5: out.append(r.replace("==1", "== 1").replace(",", " , "))
         elif k < 0.7: out.append(r.replace(".0", ".0.0", 1))
         else: out.append(gen_misc.requirement(rng))
+    if rng.random() < 0.25:
+        nm = rng.choice(["Zed_Pkg", "zed-pkg", "ZED.PKG", "other"])
+        out[rng.randrange(3)] = "NAME:" + nm + "|" + r
+        if rng.random() < 0.5: out[rng.randrange(3)] = "NAME:" + rng.choice(["Zed_Pkg", "zed-pkg", "zed--pkg"]) + "|" + r
     return out
 
 def tag_triple(rng):
@@ -80,7 +116,30 @@ def streams(rng, tier):
     for _ in range(2000 if q else 40000):
         a, b, c = v_triple(rng)
         out.append(Case("version-eq", "v.cmp", [a, b]))
+    # SpecifierSet == / hash against the model: the same clauses in other spellings and orders, parsed, combined with & or both
+    for _ in range(900 if q else 20000):
+        pool = G.pool_of(rng)
+        a = [x for x in (G.clause(rng, pool) for _ in range(rng.choice([1, 2, 3]))) if "," not in x]
+        if not a: continue
+        a2 = [G.respell(rng, x) for x in a]; rng.shuffle(a2)
+        k = rng.randrange(len(a) + 1)
+        other = a2 if rng.random() < 0.7 else a2[:-1] + [G.clause(rng, pool)]
+        prog = rng.choice([
+            ["S", "N", G.layout(rng, a), "S", "N", G.layout(rng, other), "eq"],
+            ["S", "N", G.layout(rng, a[:k]), "S", "N", G.layout(rng, other), "&", "S", "N", G.layout(rng, a), "eq", "len"],
+            ["S", "N", G.layout(rng, a), "S", "N", G.layout(rng, other), "&", "S", "N", G.layout(rng, other + a), "eq", "len"],
+            ["S", "N", G.layout(rng, a[:k]), "&s", G.layout(rng, other), "S", "N", G.layout(rng, a), "eq", "len"]])
+        out.append(Case("set-eq", "s.run", prog))
     return out
+
+def match_d36(case, impl, model):
+    """D36: a marker literal that holds both quote characters (only spellable with a Python escape, outside PEP 508's string
+    characters) is printed verbatim inside double quotes, so two markers with different structure share one string form: they
+    compare equal and hash alike but evaluate differently.  Input class: some marker text spells a quote as \\x22 / \\x27.
+    Expected wrong answer: 'equal but behave differently'."""
+    if case.cmd != "law.eq" or case.args[0] != "marker": return False
+    if not any("\\x22" in a or "\\x27" in a for a in case.args[1:]): return False
+    return isinstance(impl, str) and impl.startswith("marker equal but behave differently")
 
 def nontrivial(c, i):
     return c.kind == "law" or i not in ("E",)
